@@ -78,6 +78,21 @@ def gen_case(rng, tier):
     return {"leaves": g.leaves, "cores": cores, "seed": rng.randint(0, 10**9), "steps": rng.randint(20, 45) if tier == "quick" else rng.randint(45, 120)}
 
 
+def eq_rows_class():
+    """An iteration payload type with *value* equality (as a custom engine's payload may have):
+    a second attach with an equal but distinct object must still be rejected."""
+    from lsst.daf.relation import iteration
+
+    class EqRows(iteration.RowSequence):
+        def __eq__(self, other):
+            return isinstance(other, iteration.RowSequence) and list(self.rows) == list(other.rows)
+
+        def __hash__(self):
+            return 0
+
+    return EqRows
+
+
 def leaf_occurrences(prog, leaf):
     if prog[0] == "leaf":
         return 1 if prog[1] == leaf else 0
@@ -183,7 +198,7 @@ def run_case(case):
                     if isinstance(node.engine, sql.Engine):
                         new_payload = db.make_table("attached", [T(x) for x in cr["spec"]["cols"]], rows)
                     else:
-                        new_payload = iteration.RowSequence(rows)
+                        new_payload = eq_rows_class()(rows) if rng.random() < 0.5 else iteration.RowSequence(rows)
                     try:
                         node.attach_payload(new_payload)
                         if had:
@@ -203,7 +218,8 @@ def run_case(case):
                         if node.payload is None:
                             continue
                         old = node.payload
-                        for p in (iteration.RowSequence([]), None, old):
+                        twin = eq_rows_class()(list(old.rows)) if isinstance(old, iteration.RowSequence) else None
+                        for p in (iteration.RowSequence([]), None, old) + ((twin,) if twin is not None else ()):
                             try:
                                 node.attach_payload(p)
                                 out["violations"].append({"kind": "attach_accepted_on_relation_with_payload", "detail": f"{what} payload {type(p).__name__}"})
